@@ -1,5 +1,7 @@
 //! C01 — warning-free compilations yield Rust bindings that type-check against rasn (necessary conditions).
+use crate::eval::{Env, Evaluator, Val};
 use crate::model::{self, tok, FnInfo, Model};
+use crate::rules::util::*;
 use crate::quotex::{self, QTok};
 use crate::report::Ctx;
 use serde_json::json;
@@ -151,7 +153,7 @@ pub fn run(m: &Model, ctx: &mut Ctx) {
 C01.attrs: every key the generator emits inside #[rasn(..)] is accepted by the pinned rasn-derive-impl for the position it is emitted at (container / field / variant): writer's and reader's tables agree. \
 C01.lazy: LazyLock vs lazy_static! templates and the matching import (shared with C19). \
 C01.text2tok: every text-to-token site (TokenStream::from_str, parse::<TokenStream>, Ident::new, format_ident!) is enumerated; sites per fn may not grow unnoticed. \
-Not decided: type coherence of arbitrary programs (recursion x nesting x DEFAULT x naming x imports), name collisions, const-vs-lazy legality.".into();
+C01.defined: wherever constraints_and_type_name renders a component with the `<Parent><Field>` inner name, needs_unnesting requests the definition (both evaluated over all nestings of anonymous types under SEQUENCE OF / SET OF up to depth 3). Not decided: type coherence of arbitrary programs (recursion x nesting x DEFAULT x naming x imports), name collisions, const-vs-lazy legality.".into();
     ctx.assumptions = vec!["the rasn and rasn-derive-impl sources in the cargo registry are the versions /repo/Cargo.lock pins".into(), "Rust prelude (edition 2021) names".into()];
     ctx.rule("template vocabulary against the parsed rasn prelude; attribute keys against rasn-derive-impl's accepted keys per position");
 
@@ -300,4 +302,91 @@ Not decided: type coherence of arbitrary programs (recursion x nesting x DEFAULT
     }
     ctx.floor("C01.text2tok/fns-with-sites", sites.len(), 12);
     ctx.extra.insert("text2tok_sites".into(), json!(sites));
+    defined(m, ctx);
+}
+
+/// C01.defined: a component's type is rendered by `constraints_and_type_name`, which names an anonymous inner type
+/// `<Parent><Field>` (inner_name); the definition of that type is only emitted when `needs_unnesting` says so. The two
+/// are evaluated on every nesting shape of anonymous types under SEQUENCE OF / SET OF up to depth 3: wherever the
+/// rendered type mentions the inner name, the definition must be requested.
+fn defined(m: &Model, ctx: &mut Ctx) {
+    let (Some(nu), Some(ct)) = (anchor_fn(m, ctx, "C01.defined", Some("Rasn"), "needs_unnesting", None), anchor_fn(m, ctx, "C01.defined", Some("Rasn"), "constraints_and_type_name", None)) else { return };
+    let consts = const_resolver(m);
+    let inl = inline_all(m, &["Rasn"]);
+    let hook = |_: &Evaluator, name: &str, a: &[Val]| -> Option<Result<Val, String>> {
+        match name {
+            ".inner_name" => Some(Ok(Val::Sym("INNER".into()))),
+            ".to_rust_qualified_type" => Some(Ok(Val::Sym("REF".into()))),
+            ".constraints" | ".constraints_mut" => Some(Ok(match a.first() {
+                Some(Val::Ctor(_, p, f)) => f.get("constraints").cloned().or_else(|| p.first().and_then(|x| match x { Val::Ctor(_, _, f2) => f2.get("constraints").cloned(), _ => None })).unwrap_or(Val::List(vec![])),
+                _ => Val::List(vec![]),
+            })),
+            ".to_token_stream" | ".to_owned" | ".clone" if a.len() == 1 => Some(Ok(a[0].clone())),
+            "boxed_type" => Some(Ok(a.first().cloned().unwrap_or(Val::Unit))),
+            _ => None,
+        }
+    };
+    let ev = Evaluator { consts: &consts, call_hook: &hook, inline: Some(&inl) };
+    let leaf = |k: &str| {
+        let mut f = BTreeMap::new();
+        f.insert("constraints".to_string(), Val::List(vec![]));
+        Val::Ctor(k.into(), vec![Val::Ctor("payload".into(), vec![], f)], BTreeMap::new())
+    };
+    let of = |k: &str, el: Val| {
+        let mut f = BTreeMap::new();
+        f.insert("element_type".to_string(), el);
+        f.insert("element_tag".to_string(), Val::none());
+        f.insert("constraints".to_string(), Val::List(vec![]));
+        f.insert("is_recursive".to_string(), Val::Bool(false));
+        Val::Ctor(k.into(), vec![Val::Ctor("SequenceOrSetOf".into(), vec![], f)], BTreeMap::new())
+    };
+    let mut shapes: Vec<(String, Val)> = vec![];
+    for k in ["Sequence", "Set", "Choice", "Enumerated", "Boolean", "OctetString"] {
+        shapes.push((k.to_string(), leaf(k)));
+    }
+    let mut e = BTreeMap::new();
+    e.insert("identifier".to_string(), Val::Str("Other".into()));
+    e.insert("module".to_string(), Val::none());
+    e.insert("constraints".to_string(), Val::List(vec![]));
+    shapes.push(("type reference".into(), Val::Ctor("ElsewhereDeclaredType".into(), vec![Val::Ctor("DeclarationElsewhere".into(), vec![], e)], BTreeMap::new())));
+    for depth in 1..=3 {
+        let base: Vec<(String, Val)> = shapes.iter().filter(|(n, _)| n.matches(" OF ").count() == depth - 1).cloned().collect();
+        for (n, v) in base {
+            for k in ["SequenceOf", "SetOf"] {
+                shapes.push((format!("{} OF {}", if k == "SequenceOf" { "SEQUENCE" } else { "SET" }, n), of(k, v.clone())));
+            }
+        }
+    }
+    let p_nu: Vec<String> = nu.sig.inputs.iter().filter_map(|a| match a { syn::FnArg::Typed(t) => Some(tok(&t.pat)), _ => None }).collect();
+    let p_ct: Vec<String> = ct.sig.inputs.iter().filter_map(|a| match a { syn::FnArg::Typed(t) => Some(tok(&t.pat)), _ => None }).collect();
+    let mut n = 0;
+    for (name, v) in &shapes {
+        n += 1;
+        ctx.oblige("C01.defined", name, name.contains(" OF "));
+        let mut e1 = Env::new();
+        e1.insert(p_nu.first().cloned().unwrap_or("ty".into()), v.clone());
+        let hoisted = match ev.eval_fn_body(&nu.block, &mut e1) {
+            Ok(Val::Bool(b)) => b,
+            Ok(o) => { ctx.fail_closed("C01.defined", &format!("[needs_unnesting {}]: {}", name, o.show())); continue }
+            Err(e) => { ctx.fail_closed("C01.defined", &format!("[needs_unnesting {}]: {}", name, e)); continue }
+        };
+        let mut e2 = Env::new();
+        e2.insert("self".into(), Val::ctor("Rasn"));
+        for (i, p) in p_ct.iter().enumerate() {
+            e2.insert(p.clone(), match i { 0 => v.clone(), 1 => Val::Str("field".into()), 2 => Val::Str("Parent".into()), _ => Val::Bool(false) });
+        }
+        let rendered = match ev.eval_fn_body(&ct.block, &mut e2) {
+            Ok(Val::Ctor(ok, p, _)) if ok == "Ok" => match p.first() {
+                Some(Val::Tuple(t)) if t.len() == 2 => t[1].show(),
+                o => { ctx.fail_closed("C01.defined", &format!("[constraints_and_type_name {}]: {:?}", name, o.map(|x| x.show()))); continue }
+            },
+            Ok(o) => { ctx.fail_closed("C01.defined", &format!("[constraints_and_type_name {}]: {}", name, o.show())); continue }
+            Err(e) => { ctx.fail_closed("C01.defined", &format!("[constraints_and_type_name {}]: {}", name, e)); continue }
+        };
+        if rendered.contains("INNER") && !hoisted {
+            ctx.violate("C01.defined", &format!("inner-type-not-defined:{}", name.replace(' ', "_")), &nu.file, nu.line,
+                &format!("a component of type `{}` is rendered as `{}` (INNER = the `<Parent><Field>` inner type) but needs_unnesting() is false for it: the inner type is referred to and never defined (E0425 in the generated bindings)", name, rendered));
+        }
+    }
+    ctx.floor("C01.defined/shapes", n, 100);
 }
